@@ -60,7 +60,7 @@ def extract_tables():
     tool = os.path.join(ROOT, "tools", "extract.py")
     if not os.path.exists(tool):
         return
-    rc, out = sh([sys.executable, tool, REPO, os.path.join(LEAN, "SkimModel", "Generated.lean")])
+    rc, out = sh([sys.executable, tool, REPO, LEAN])
     if rc != 0:
         raise BuildError("extractor", out[-4000:])
 
